@@ -32,15 +32,29 @@ RULE = ('cases = acyclic rule sets (1-4 rules, rule: references to lower rules) 
         'system_scope / system / domain_id / project_id, truthy and falsy) and targets handed over in other mapping containers '
         '(MappingProxyType, a read-only collections.abc.Mapping subclass, UserDict, OrderedDict, defaultdict, a dict subclass, ChainMap), '
         'scope enforcement off/on, registered policies with scope_types, debug logging off/on: only the exception surface is demanded '
-        '(a decision or a documented exception; no particular decision).')
-ASSUMPTIONS = ['roles in credentials are a list of strings (the statement\'s precondition)',
+        '(a decision or a documented exception; no particular decision). '
+        'O = the rule handed to enforce() as a parsed CHECK OBJECT instead of a name (enforce documents "a string or BaseCheck"): every '
+        'rule of a generated hostile rule set plus rules with a root of every class (leaf role: / rule: / generic incl. certainly '
+        'unevaluable left sides / user-defined kinds, parenthesised leaf, not, and, or, @, !, list-of-lists values whose root is a leaf, '
+        'a conjunction, a disjunction or empty) is parsed through the public API (RuleDefault(..).check, Rules.from_dict(..)[name], the '
+        'object in the enforcer\'s own store, the check of a registered default) and the OBJECT is enforced, do_raise off and on (also '
+        'with the caller\'s exception class), on an enforcer that has registered defaults (unscoped ones for some of the rules, scoped '
+        'ones, ones present only in the registry, ones named like the printed form of a root), hostile credentials / targets, '
+        'sometimes in the other mapping containers, scope enforcement off/on, debug logging off/on; user-defined check classes registered '
+        'through policy.register that define __eq__ without __hash__ (hand-written and a dataclass: unhashable instances), that are frozen '
+        '(attributes cannot be set) or slotted take part as leaves and as roots; oracle: only the documented exceptions, a root leaf that '
+        'certainly cannot be evaluated denies (plain dict credentials), and a plain decision for the object equals the plain decision for '
+        'the same rule enforced by name with equal inputs (names registered with scope_types excepted); authorize() is called by name only '
+        '(registered and unregistered names): exception surface.')
+ASSUMPTIONS =['roles in credentials are a list of strings (the statement\'s precondition)',
                'http:/https: kinds are excluded here: their transport errors are C16\'s subject',
                '% appears only inside well-formed %(name)s placeholders']
 LEVEL_TEXT = ('Seeded hostile fuzzing with an exception-surface oracle; the inputs that crash are syntactically odd, so a '
               'fragment-based generator plus a curated alphabet is the appropriate level (no finite enumeration exists).')
 LEVEL_NOTE = 'trusted: the list of documented exceptions taken from the statement; the curated "certainly unevaluable" list'
 PLAN = {'quick': dict(shards=4, wall=120), 'thorough': dict(shards=16, wall=400)}
-MIN = {'empty_segment_path_decisions': 1000, 'container_enforce_calls': 3000, 'overlapping_evaluations': 200, 'deleted_reference_decisions': 100, 'file_override_enforce_calls': 100, 'same_target_comparisons': 500, 'evaluations': 5000, 'enforce_calls': 10000, 'hostile_leaves': 5000, 'unevaluable_leaf_rules': 500}
+MIN = {'check_object_enforce_calls': 4000, 'check_object_leaf_root_calls': 1500, 'check_object_unhashable_root_calls': 150,
+       'check_object_vs_name_comparisons': 2000, 'empty_segment_path_decisions': 1000, 'container_enforce_calls': 3000, 'overlapping_evaluations': 200, 'deleted_reference_decisions': 100, 'file_override_enforce_calls': 100, 'same_target_comparisons': 500, 'evaluations': 5000, 'enforce_calls': 10000, 'hostile_leaves': 5000, 'unevaluable_leaf_rules': 500}
 ANCHORS = ['oslo_policy._checks:GenericCheck.__call__', 'oslo_policy._checks:GenericCheck._find_in_dict',
            'oslo_policy._checks:RoleCheck.__call__', 'oslo_policy.policy:Enforcer.enforce']
 REQUIRED_ANCHORS = ['oslo_policy.policy:Enforcer.enforce']
@@ -480,6 +494,8 @@ def check_case(ctx, real, case):
         return check_deleted_reference(ctx, real, case)
     if case['kind'] == 'F':
         return check_file_override_of_registered(ctx, real, case)
+    if case['kind'] == 'O':
+        return check_object_case(ctx, real, case)
     ctx.case([case['rules'], case['target'], case['creds']], nontrivial=True, stratum=case['kind'])
     ctx.count('hostile_leaves', case.get('hostile', 1))
     try:
@@ -531,6 +547,317 @@ def check_case(ctx, real, case):
                     return
 
 
+# stratum O: the rule is handed to enforce() as a parsed check OBJECT
+OBJECT_CASES = {'quick': 320, 'thorough': 12000}
+O_ROUTES = ['ruledefault', 'from_dict', 'store', 'registered']
+O_CUSTOM_KINDS = ['pv14eq', 'pv14dc', 'pv14frozen', 'pv14slots']
+O_UNHASHABLE_KINDS = ('pv14eq', 'pv14dc')
+O_CALLER_EXC = 'PvCallerDenied'
+_CUSTOM_READY = []
+
+
+class PvCallerDenied(Exception):
+    """The caller's own exception class (enforce(..., do_raise=True, exc=PvCallerDenied))."""
+
+
+def ensure_custom_kinds():
+    """User-defined check classes, registered through the public policy.register: legal Python objects that are
+    unhashable (an __eq__ without a __hash__: hand-written, and what @dataclass generates), frozen, or slotted.  They
+    decide like a role check without substitution and never raise by themselves."""
+    if _CUSTOM_READY:
+        return
+    import dataclasses
+    from oslo_policy import policy
+
+    def decide(check, creds):
+        roles = creds.get('roles') or []
+        return check.match in roles
+
+    class EqWithoutHash(policy.Check):
+        def __eq__(self, other):
+            if type(other) is not type(self):
+                return NotImplemented
+            return (self.kind, self.match) == (other.kind, other.match)
+
+        def __call__(self, target, creds, enforcer, current_rule=None):
+            return decide(self, creds)
+
+    @dataclasses.dataclass
+    class DataCheck(policy.Check):
+        kind: str
+        match: str
+
+        def __call__(self, target, creds, enforcer, current_rule=None):
+            return decide(self, creds)
+
+    class Frozen(policy.Check):
+        def __init__(self, kind, match):
+            object.__setattr__(self, 'kind', kind)
+            object.__setattr__(self, 'match', match)
+
+        def __setattr__(self, name, value):
+            raise AttributeError('this check object is frozen: cannot set %r' % name)
+
+        def __delattr__(self, name):
+            raise AttributeError('this check object is frozen: cannot delete %r' % name)
+
+        def __call__(self, target, creds, enforcer, current_rule=None):
+            return decide(self, creds)
+
+    class Slotted(policy.Check):
+        __slots__ = ('kind', 'match')
+
+        def __call__(self, target, creds, enforcer, current_rule=None):
+            return decide(self, creds)
+
+    for kind, cls in zip(O_CUSTOM_KINDS, (EqWithoutHash, DataCheck, Frozen, Slotted)):
+        env.register_kind(kind, cls)
+    _CUSTOM_READY.append(True)
+
+
+def gen_hostile_leaf(rnd, pool=None):
+    for _try in range(6):
+        lhs, rhs = (rnd.choice(pool) if pool else gen_lhs(rnd)), rnd.choice(RHS)
+        if survives_tokenizer(lhs, rhs):
+            return '%s:%s' % (lhs, rhs)
+    return 'class:x'
+
+
+def gen_object_leaf(rnd, lower):
+    q = rnd.random()
+    if q < 0.15:
+        return 'role:' + rnd.choice(['r', 'admin', '%(t)s', '%(roles)s', 'x%(t2)s', 'é', 'Ünï', 'R'])
+    if q < 0.3:
+        return 'rule:' + rnd.choice(lower + ['ghost'])
+    if q < 0.45:
+        return '%s:%s' % (rnd.choice(O_CUSTOM_KINDS), rnd.choice(['r', 'admin', 'zz', 'Ünï']))
+    if q < 0.5:
+        return rnd.choice(['@', '!'])
+    return gen_hostile_leaf(rnd)
+
+
+def gen_object_case(rnd):
+    """A hostile rule set plus rules whose ROOT is of every class; each rule will be parsed through the public API and the
+    check object enforced, next to the same rule enforced by name."""
+    while True:
+        base = gen_case(rnd)
+        if base['kind'] in ('R', 'L', 'N', 'E'):
+            break
+    rules = dict(base['rules'])
+    lower = sorted(rules)
+    extra = collections.OrderedDict()
+    extra['o.role'] = 'role:' + rnd.choice(['r', 'admin', '%(t)s', '%(roles)s', 'x%(t2)s', 'é', 'Ünï', 'R', 'zz'])
+    extra['o.gen'] = gen_hostile_leaf(rnd)
+    extra['o.unev'] = gen_hostile_leaf(rnd, UNEVALUABLE)
+    extra['o.ref'] = 'rule:' + rnd.choice(lower + ['ghost', 'o.role', 'o.gen', 'o.unev'])
+    extra['o.custom'] = '%s:%s' % (rnd.choice(O_CUSTOM_KINDS), rnd.choice(['r', 'admin', 'zz']))
+    extra['o.unhashable'] = '%s:%s' % (rnd.choice(O_UNHASHABLE_KINDS), rnd.choice(['r', 'admin', 'zz']))
+    lower = lower + list(extra)
+    extra['o.paren'] = '(%s)' % gen_object_leaf(rnd, lower)
+    extra['o.not'] = 'not ' + gen_object_leaf(rnd, lower)
+    extra['o.and'] = ' and '.join(gen_object_leaf(rnd, lower) for _ in range(rnd.randint(2, 3)))
+    extra['o.or'] = ' or '.join(gen_object_leaf(rnd, lower) for _ in range(rnd.randint(2, 3)))
+    extra['o.true'] = '@'
+    extra['o.false'] = '!'
+    leaves = [gen_object_leaf(rnd, lower) for _ in range(rnd.randint(2, 4))]
+    extra['o.mix'] = expr.spell(expr.to_tokens(expr.random_ast(rnd, rnd.randint(1, 2), len(leaves), p_const=0.0),
+                                               lambda j: leaves[j]))
+    # the list-of-lists spelling: its leaves are single checks (no `not`, no parentheses)
+    extra['o.list-leaf'] = rnd.choice([[[gen_object_leaf(rnd, lower)]], [gen_object_leaf(rnd, lower)]])
+    extra['o.list-and'] = [[gen_object_leaf(rnd, lower) for _ in range(rnd.randint(2, 3))]]
+    extra['o.list-or'] = [[gen_object_leaf(rnd, lower)], [gen_object_leaf(rnd, lower) for _ in range(rnd.randint(1, 2))]]
+    extra['o.list-empty'] = rnd.choice([[], [[]]])
+    rules.update(extra)
+    creds, target = base['creds'], base['target']
+    if rnd.random() < 0.4:
+        for k in ('system_scope', 'system', 'domain_id', 'project_id'):
+            if rnd.random() < 0.5:
+                creds[k] = rnd.choice(SCOPE_VALUES)
+    text_names = [n for n in sorted(rules) if isinstance(rules[n], str)]
+    registered = [n for n in text_names if rnd.random() < 0.5]
+    registry_only = {'reg.only.0': gen_object_leaf(rnd, lower),
+                     'reg.only.1': rnd.choice(['not ', '']) + gen_object_leaf(rnd, lower) + rnd.choice([' or ', ' and ']) + gen_object_leaf(rnd, lower)}
+    plain = rnd.random() < 0.6
+    return dict(kind='O', rules=rules, base_names=sorted(base['rules'])[:3], registered=registered, registry_only=registry_only,
+                printed_names=rnd.random() < 0.5, routes=rnd.sample(O_ROUTES, 2), target=target, creds=creds,
+                creds_container='dict' if plain else rnd.choice(CREDS_CONTAINERS),
+                target_container='dict' if plain else rnd.choice(TARGET_CONTAINERS),
+                enforce_scope=rnd.random() < 0.5, debug=rnd.random() < 0.1, caller_exc=rnd.random() < 0.3,
+                use_conf=rnd.random() < 0.5)
+
+
+def surface_key(exc_name, message):
+    """Mechanism key of an undocumented exception, as the by-name strata classify it."""
+    if exc_name in ('SyntaxError', 'ValueError', 'MemoryError', 'RecursionError'):
+        return 'literal-attempt-raises'
+    if exc_name == 'TypeError':
+        return 'literal-attempt-raises' if 'unhashable' in message else 'path-walk-raises'
+    return 'undocumented-exception-' + exc_name
+
+
+def root_class_of(obj, policy):
+    """The class of a check tree's root, told from the outside: printed form and public base class."""
+    text = str(obj)
+    if text in ('@', '!'):
+        return 'constant'
+    if isinstance(obj, policy.Check):
+        return 'leaf'
+    if text.startswith('not '):
+        return 'not'
+    if text.startswith('('):
+        return 'and/or'
+    return 'other'
+
+
+def obtain_check_object(policy, enf, case, name, value, route):
+    """A check object for the rule `name`, through the public API.  -> (route really taken, object)"""
+    if route == 'registered' and name in case['registered'] + sorted(case['registry_only']) + sorted(M_SCOPES):
+        return route, enf.registered_rules[name].check
+    if route == 'store' and name in enf.rules:
+        return route, enf.rules[name]
+    if route == 'ruledefault' and isinstance(value, str):
+        return route, policy.RuleDefault('pv.o', value).check
+    return 'from_dict', policy.Rules.from_dict({name: value})[name]
+
+
+def check_object_case(ctx, real, case):
+    """enforce() is documented to take "a string or BaseCheck": every rule of the set is enforced as a parsed check object
+    (root of every class) on an enforcer with registered defaults, next to the same rule enforced by name."""
+    import contextlib
+    policy, _ = real
+    ensure_custom_kinds()
+    # use_conf: the enforcer reads configuration (there is no policy file) and merges the registered defaults into its store
+    use_conf = bool(case.get('use_conf'))
+    enf = policy.Enforcer(env.fresh_conf(enforce_scope=bool(case['enforce_scope'])), use_conf=use_conf)
+    rules = dict(case['rules'])
+    rules.update(M_RULES)
+    all_rules = dict(rules)
+    all_rules.update(case['registry_only'])
+    ctx.case(['check-object', case['rules'], case['target'], case['creds'], case['registered'], case['routes'],
+              case['creds_container'], case['target_container'], case['enforce_scope']], nontrivial=True, stratum='O')
+    try:
+        enf.set_rules(policy.Rules.from_dict(rules), use_conf=use_conf)
+    except Exception as e:
+        ctx.violation('load-raises', case, {'rules': rules, 'observed': type(e).__name__ + ': ' + str(e)[:100]})
+        return
+    try:
+        for name in sorted(M_SCOPES):
+            enf.register_default(policy.RuleDefault(name, M_RULES[name], scope_types=M_SCOPES[name]))
+        for name in case['registered']:
+            enf.register_default(policy.RuleDefault(name, case['rules'][name]))
+        for name in sorted(case['registry_only']):
+            enf.register_default(policy.RuleDefault(name, case['registry_only'][name]))
+        if case['printed_names']:
+            # defaults NAMED like the printed form of a root (one of them scoped): a registry lookup that is handed the
+            # check object - or its text - must not take them for the operation's own registration
+            for i, name in enumerate(sorted(case['rules'])):
+                printed = str(policy.Rules.from_dict({name: case['rules'][name]})[name])
+                if printed and printed not in enf.registered_rules and printed not in all_rules:
+                    enf.register_default(policy.RuleDefault(printed, '!', scope_types=['system'] if i % 2 else None))
+        enf.load_rules()
+    except Exception as e:
+        # building the registry is not enforcement: outside the statement
+        ctx.unconstrained('check-object-registry-not-built-' + type(e).__name__)
+        return
+    make_creds, make_target = CONTAINERS[case['creds_container']], CONTAINERS[case['target_container']]
+    caller = {'exc': PvCallerDenied} if case['caller_exc'] else {}
+    documented = DOCUMENTED + ((O_CALLER_EXC,) if case['caller_exc'] else ())
+
+    def attempt(rule, do_raise, method='enforce'):
+        creds = make_creds(copy.deepcopy(case['creds']))
+        target = make_target(copy.deepcopy(case['target']))
+        try:
+            got = getattr(enf, method)(rule, target, creds, do_raise=do_raise, **caller)
+            return ('decision', bool(got))
+        except Exception as e:
+            return ('raised', type(e).__name__, str(e)[:160])
+
+    def describe(name, **more):
+        d = {'rules': rules, 'registered_defaults': sorted(enf.registered_rules), 'enforced': name, 'rule': all_rules.get(name),
+             'creds': case['creds'], 'creds_container': case['creds_container'], 'target': case['target'],
+             'target_container': case['target_container'], 'enforce_scope': case['enforce_scope']}
+        d.update(more)
+        return d
+
+    names = case['base_names'] + [n for n in sorted(case['rules']) if n.startswith('o.')] + sorted(case['registry_only']) + sorted(M_SCOPES)[:1]
+    with (env.debug_logging() if case.get('debug') else contextlib.nullcontext()):
+        for name in names:
+            value = all_rules[name]
+            by_name = {}
+            for do_raise in (False, True):
+                by_name[do_raise] = o = attempt(name, do_raise)
+                ctx.count('check_object_by_name_calls')
+                if o[0] == 'raised' and o[1] not in documented:
+                    ctx.violation(surface_key(o[1], o[2]), case, describe(name, passed_as='name', do_raise=do_raise,
+                                                                          observed='%s: %s' % o[1:]))
+                    return
+            for route in case['routes']:
+                try:
+                    route, obj = obtain_check_object(policy, enf, case, name, value, route)
+                except Exception as e:
+                    if route == 'from_dict' or not isinstance(value, str):
+                        ctx.violation('load-raises', case, describe(name, route=route, observed=type(e).__name__ + ': ' + str(e)[:100]))
+                        return
+                    ctx.unconstrained('check-object-not-obtained-' + type(e).__name__)
+                    continue
+                root = root_class_of(obj, policy)
+                kind = value.split(':', 1)[0] if isinstance(value, str) else None
+                for do_raise in (False, True):
+                    o = attempt(obj, do_raise)
+                    ctx.count('check_object_enforce_calls')
+                    ctx.count('check_object_enforce_calls.root-' + root)
+                    ctx.count('check_object_enforce_calls.' + route)
+                    if root == 'leaf':
+                        ctx.count('check_object_leaf_root_calls')
+                        if type(obj).__hash__ is None:
+                            ctx.count('check_object_unhashable_root_calls')
+                    ctx.observe('check_object_outcomes', '%s: %s' % (root, o[1] if o[0] == 'raised' else 'decision'))
+                    if o[0] == 'raised' and o[1] not in documented:
+                        ctx.violation('check-object-enforce-raises-' + o[1], case,
+                                      describe(name, passed_as='check object', route=route, root_class=type(obj).__name__,
+                                               do_raise=do_raise, observed='%s: %s' % o[1:], same_rule_by_name=list(by_name[do_raise])))
+                        return
+                    allowed = o == ('decision', True)
+                    if (root == 'leaf' and kind in UNEVALUABLE and name in ('o.unev', 'o.gen') and case['creds_container'] == 'dict'
+                            and not is_python_literal(kind)):
+                        # a single check whose left side certainly cannot be evaluated denies, however it is handed over
+                        ctx.count('check_object_unevaluable_roots')
+                        if allowed:
+                            ctx.violation('unevaluable-check-allows', case, describe(name, passed_as='check object', route=route,
+                                                                                    do_raise=do_raise, observed=list(o)))
+                            return
+                    if name in M_SCOPES:
+                        # a name registered with scope_types is scope-checked by name; the object carries no name
+                        ctx.unconstrained('check-object-of-a-scoped-registration')
+                        continue
+                    if name in case['registry_only'] and name not in enf.rules:
+                        # an enforcer that does not read configuration keeps registered defaults out of its rule store:
+                        # the name then stands for no rule at all
+                        ctx.unconstrained('check-object-of-a-default-that-is-not-in-the-store')
+                        continue
+                    n = by_name[do_raise]
+                    # compare what the caller gets: a decision, or (do_raise) the denial as the documented exception
+                    denial = ('PolicyNotAuthorized', O_CALLER_EXC)
+                    if all(x[0] == 'decision' or x[1] in denial for x in (o, n)):
+                        ctx.count('check_object_vs_name_comparisons')
+                        if allowed != (n == ('decision', True)):
+                            ctx.violation('check-object-decides-differently-from-its-name', case,
+                                          describe(name, route=route, root_class=type(obj).__name__, do_raise=do_raise,
+                                                   as_check_object=list(o), by_name=list(n)))
+                            return
+                    else:
+                        ctx.unconstrained('check-object-or-name-raised-a-documented-exception')
+        # authorize() needs a NAME: registered names and one that is not registered
+        for name in (case['registered'][:2] + sorted(case['registry_only'])[:1] + sorted(M_SCOPES)[:1] + ['o.not-registered']):
+            for do_raise in (False, True):
+                o = attempt(name, do_raise, 'authorize')
+                ctx.count('authorize_calls_by_name')
+                if o[0] == 'raised' and o[1] not in documented:
+                    ctx.violation(surface_key(o[1], o[2]), case, describe(name, passed_as='name', method='authorize',
+                                                                          do_raise=do_raise, observed='%s: %s' % o[1:]))
+                    return
+
+
 OVERLAPS = {'quick': 10, 'thorough': 200}
 
 
@@ -566,6 +893,17 @@ def run(ctx):
     ctx.reserve(0.8)          # the strata that come last (overlapping operations) keep a fifth of the wall budget
     from oslo_policy import policy
     enf = policy.Enforcer(env.fresh_conf(), use_conf=False)
+    # stratum O (rules handed over as check objects): small, first, with its own random stream - the stream of the
+    # strata below stays what it was
+    ctx.stratum('check-object', exhaustive=False)
+    for i in range(OBJECT_CASES[ctx.tier] // ctx.nshards + 1):
+        if (i & 0x1f) == 0 and ctx.expired():
+            break
+        case = gen_object_case(ctx.sub_rnd('Obj', ctx.tier, ctx.shard, ctx.nshards, i))
+        check_object_case(ctx, (policy, enf), case)
+        if i == 0:
+            ctx.sample({'rules': case['rules'], 'target': case['target'], 'creds': case['creds'], 'registered': case['registered'],
+                        'routes': case['routes']}, 'O')
     n = N[ctx.tier] // ctx.nshards + 1
     for i in range(n):
         if (i & 0xff) == 0 and ctx.expired():
